@@ -32,6 +32,7 @@ def check(ctx, args):
         ctx.property_theorems()
     if not (okb and okm):
         return ctx.finish("translation_validation")
+    nknown = pipelib.run_known_corpus(ctx)
     quick = ctx.tier == "quick"
     nprog = 64 if quick else 1200
     scheds = [None, "%d:120" % (ctx.seed * 7 + 1)] if quick else \
